@@ -780,6 +780,10 @@ def c11_job(chk, rng, i):
             deep.append(("x", ("gscan_bytes", s, s % nstr)))   # replaces the top ...
             deep.append(("x", ("gpush", 0 if s == 1 else s - 1)))   # ... which is pushed again
         after = [deep] + after
+    if i % 8 == 6:
+        # (directed, so that the feature does not depend on the seed) a push right after the
+        # current buffer was deleted
+        after = [[("x", ("gcreate", 1, 1 % nsrc, 0)), ("x", ("gdelpush", 1))]] + after
     case["driver"] = {"init": [("open_buf", 0)], "after": after}
     small_first = (i % 6 == 4)
     if i % 6 == 3:
